@@ -19,7 +19,7 @@ ASSUMPTIONS = ['power / image tolerances 4e-2 (>= 6x the worst interpolation res
                'scale factors are drawn so that n*s is not within 1e-9 of an integer unless it is exactly one']
 PLAN = {'quick': {'gen': 8}, 'thorough': {'gen': 16, 'tests': 1, 'docs': 1}}
 REQUIRED_BUCKETS = ['s<1', 's>1', 's=1', 's:integer', 'shape:odd', 'shape:even', 'shape:nonsquare', 'monolithic', 'segmented',
-                    'resample', 'resample:refused', 'scalar-attributes', 'mask-dtype', 'amp:signed', 's:decimal-near-integer-product']
+                    'resample', 'resample:refused', 'scalar-attributes', 'mask-dtype', 'amp:signed', 's:decimal-near-integer-product', 'subclass:property-override']
 REQUIRED_ANCHORS = ['probe:Plane.rescale', 'anchor:Plane.resample', 'anchor:util.rescale', 'anchor:_plane_slice']
 REQUIRED_ORACLES = ['pixelscale/s', 'shape=ceil(n*s)', 'mask:binary+segments', 'original-untouched', 'identity', 'power',
                     'image', 'extent', 'resample=rescale', 'resample:refused']
@@ -193,6 +193,48 @@ def workload(ctx, lentil):
                   'transmitted power sum|amplitude|^2 is not preserved to interpolation accuracy', dict(desc, P=[P0, P1]), scale=P0)
         ctx.close('image', b, a, TOL, 'rescale|image', 'propagated image at a fixed output sampling is not preserved to interpolation accuracy',
                   desc, scale=float(a.max()))
+        # a subclass that keeps its surface in other units behind the public properties (getter + setter, the customisation the
+        # documentation describes): rescaling goes through those properties, so it behaves like the stock plane with the same data
+        if i % 4 == 2:
+            ctx.bucket('subclass:property-override')
+            class NmPupil(lentil.Pupil):
+                def __init__(self, opd_nm, throughput, base_amp, **kw2):
+                    super().__init__(**kw2)
+                    self._opd_nm = np.asarray(opd_nm, float)
+                    self._base_amp = np.asarray(base_amp, float)
+                    self.throughput = throughput
+
+                @property
+                def opd(self):
+                    return self._opd_nm * 1e-9
+
+                @opd.setter
+                def opd(self, value):
+                    self._opd_nm = np.asarray(value, float) / 1e-9
+
+                @property
+                def amplitude(self):
+                    return self._base_amp * self.throughput
+
+                @amplitude.setter
+                def amplitude(self, value):
+                    self._base_amp = np.asarray(value, float) / self.throughput
+            try:
+                mk_ = kw.get('mask', (base > 0).astype(float))
+                sub = NmPupil(opd / 1e-9, 0.5, amp / 0.5, mask=mk_, pixelscale=dx, focal_length=z)
+                stock = lentil.Pupil(amplitude=amp, opd=opd, mask=mk_, pixelscale=dx, focal_length=z)
+                qs, q0 = sub.rescale(s), stock.rescale(s)          # online oracle: bookkeeping of both
+                a_s, a_0 = np.asarray(qs.amplitude, float), np.asarray(q0.amplitude, float)
+                o_s, o_0 = np.asarray(qs.opd, float), np.asarray(q0.opd, float)
+                ok = a_s.shape == a_0.shape and o_s.shape == o_0.shape and \
+                    np.allclose(a_s, a_0, rtol=1e-9, atol=1e-12 * float(np.abs(a_0).max())) and \
+                    np.allclose(o_s, o_0, rtol=1e-9, atol=1e-12 * float(np.abs(o_0).max()) + 1e-30) and \
+                    np.array_equal(np.asarray(qs.mask), np.asarray(q0.mask))
+                ctx.check(ok, 'resample=rescale', 'rescale|subclass-properties',
+                          'a plane subclass that overrides the amplitude / opd properties is not rescaled like the stock plane with the same data',
+                          dict(desc, shapes=[list(a_s.shape), list(a_0.shape), list(o_s.shape), list(o_0.shape)]))
+            except Exception as e:
+                ctx.check(False, 'resample=rescale', f'rescale|subclass|raises={type(e).__name__}', str(e), desc)
         # identity
         if i % 3 == 0:
             ctx.case(dict(desc, s=1.0), ['s=1'], nontrivial=False)
@@ -248,6 +290,17 @@ def workload(ctx, lentil):
                 except Exception as e:
                     ctx.check(False, 'mask:binary+segments', f'rescale|mask-dtype|raises={type(e).__name__}',
                               f'rescale of a plane with a {np.dtype(dt).name} mask raised {type(e).__name__}: {e}', desc)
+            try:
+                # chains of sampling changes ending in resample: first-generation results are planes like any other
+                r_a = q.resample(dx)                           # back to the original pixel scale
+                r_b = pl.resample(dx / 1.5).resample(dx / s)
+                okc = abs(r_a.pixelscale[0] - dx) <= 1e-12 * dx and abs(r_b.pixelscale[0] - dx / s) <= 1e-12 * dx and \
+                    isinstance(q.pixelscale, tuple) and isinstance(r_a.pixelscale, tuple)
+                ctx.check(okc, 'resample=rescale', 'resample|chained', 'a rescaled / resampled plane cannot be resampled again to the requested '
+                          'pixel scale (or its pixel scale is no longer a tuple)', dict(desc, got=[repr(q.pixelscale), repr(r_a.pixelscale)]))
+            except Exception as e:
+                ctx.check(False, 'resample=rescale', f'resample|chained|raises={type(e).__name__}',
+                          f'resampling an already rescaled plane raised {type(e).__name__}: {e}', desc)
             try:
                 s2 = 1.0 / s if rng.random() < 0.5 else float(rng.choice([1.5, 2.0, 0.75]))
                 qq = q.rescale(s2)                            # online oracle: bookkeeping of the second step
